@@ -171,6 +171,14 @@ def check(prop):
         st2 = run_driver(args, tr2, os.path.join(d, "random.stats"))
         rej2, opens2, states2, nev2 = validate(u, NAMES3, tr2, workers=12)
         total_rejects += rej2
+        # ... and histories in which the store is looked at only now and then (one operation in five): what is only
+        # brought up to date by being read (a cached listing, a lazily rebuilt index) shows between two observations
+        tr3 = os.path.join(d, "sparse.ndjson")
+        st3 = run_driver(["random", "-names", ",".join(NAMES3), "-steps", str(steps), "-sparse", "5"]
+                         + (["-lookups", "-lookup-every", "60"] if prop == "C02" else []), tr3, os.path.join(d, "sparse.stats"))
+        rej3, opens3, states3, nev3 = validate(u, NAMES3, tr3, workers=12)
+        total_rejects += rej3
+        cov["sparse_history"] = {"steps": steps, "operations_not_followed_by_an_observation": st3.get("unobserved", 0), "events_validated": nev3}
         cov.update({
             "states": mc.distinct, "transitions": mc.generated,
             "traces_validated_against_impl": 2,
